@@ -774,13 +774,22 @@ func runEnum(t *testing.T, alphabet []rune, maxPat int, maxStr func(patLen int) 
 		if k%nshard != shard {
 			continue
 		}
+		var plain, nocase []string
 		for _, m := range modes {
 			ml := maxStr(len([]rune(pat)))
+			var cands []string
 			if m&mI != 0 {
-				ml--
+				if nocase == nil {
+					nocase = candidatesFor(pat, m, ml-1, extra)
+				}
+				cands = nocase
+			} else {
+				if plain == nil {
+					plain = candidatesFor(pat, m, ml, extra)
+				}
+				cands = plain
 			}
-			c := Case{Pattern: pat, Mode: m, Cands: candidatesFor(pat, m, ml, extra)}
-			vh.Each(t, prop, c)
+			vh.Each(t, prop, Case{Pattern: pat, Mode: m, Cands: cands})
 		}
 	}
 }
@@ -812,13 +821,13 @@ func TestC17Enum(t *testing.T) {
 	runEnum(t, []rune(`*?[]!-\ab/`), maxPat, maxStr, enumModes, []rune{'/', '.', 'c'})
 }
 
-// TestC17EnumExt: every pattern up to length 4 (5 in the thorough tier) over
+// TestC17EnumExt: every pattern up to length 5 (6 in the thorough tier) over
 // the alphabet ? * + @ ( | ) a b, with ExtendedOperators (bash judges the
 // EntireString mode; the reference the unanchored and Filenames ones), on
 // every string up to length 3 (4 for patterns up to length 4 in the thorough
 // tier) over the pattern's characters plus "a" and ".".
 func TestC17EnumExt(t *testing.T) {
-	maxPat := vh.Scale(4, 5)
+	maxPat := vh.Scale(5, 6)
 	maxStr := func(pl int) int {
 		if vh.Thorough() && pl <= 4 {
 			return 4
